@@ -32,8 +32,11 @@ def build_jobs(tier, seed):
         jobs.append(J(H['fromstr'], dict(n=n, junk='component'),
                       split_depth=6))
     jobs.append(J(H['compat'], {}))
-    for k in ((1, 2) if tier == 'quick' else (1, 2, 3)):
+    for k in (1, 2):
         jobs.append(J(H['predicate'], dict(k=k), split_depth=8))
+    if tier == 'thorough':
+        # three comparators: operator characters symbolic, no whitespace
+        jobs.append(J(H['predicate'], dict(k=3, ws=False), split_depth=10))
     jobs.append(J(H['predicate'], dict(k=2 if tier == 'quick' else 3,
                                        concrete_ops=True), split_depth=6))
     return jobs
@@ -52,7 +55,8 @@ def describe(tier):
         'contract stub (arbitrary integer ordering key and major per '
         'version); operators as 1..2 symbolic characters over <>=!~, '
         'optional symbolic whitespace, 1..%d comparators joined by comma / '
-        'space / nothing' % (2 if tier == 'quick' else 3),
+        'space / nothing (three comparators without the symbolic whitespace)' % (
+            2 if tier == 'quick' else 3),
         'outside': 'PEP 440 parsing and ordering (packaging), tuple inputs '
         'with non-integer components',
     }
